@@ -26,7 +26,7 @@ CLAIMS = {
    note="'conventionally computed' = reported unflagged and also reported by the same call under policy None; order measured as signed clock distance from Dhuhr",
    tech="TLA+ spec (PrayerDay) + TLC model checking + TLC trace validation of recorded public calls", ref="§5 C05"),
  "C07": dict(
-   text="TLC explores PrayerDay.tla (Panic is a state; 15 policies x 24 validity patterns x interval/offset/rounding choices x substitute-latitude and good-day environments) for NoPanic/termination and GoodDay.tla for termination of the search; the pre-fix unwrap (D2) is shown reachable with LegacyUnwrap; 25k (quick) / 1.5M (thorough) guarded public calls over the whole input product incl. the poles are validated: seven well-formed entries, Dhuhr present, no panic, < 20 s",
+   text="TLC explores PrayerDay.tla (Panic is a state; 15 policies x 24 validity patterns x interval/offset/rounding choices x substitute-latitude and good-day environments) for NoPanic/termination and GoodDay.tla for termination of the search; the pre-fix unwrap (D2) is shown reachable with LegacyUnwrap; 15k random + ~40k threshold-day (quick) / 400k (thorough) guarded public calls over the whole input product incl. the poles are validated: seven well-formed entries, Dhuhr present, no panic, < 20 s",
    note="bounded time = 20 s per call watchdog (slowest observed call logged in evidence); inputs sampled, not enumerated",
    tech="TLA+ spec (PrayerDay, GoodDay) + TLC model checking + TLC trace validation of guarded calls", ref="§5 C07"),
  "C08": dict(
